@@ -69,6 +69,9 @@ def _evaluate(ids, seeds, tier, rows):
         if ids and sid not in ids:
             continue
         meta = json.load(open(os.path.join(d, "meta.json")))
+        if meta.get("retired"):
+            print("%-28s retired: %s" % (sid, meta["retired"][:90]))
+            continue
         pid = meta["property"]
         r = sh("git -C %s apply %s" % (REPO, os.path.join(d, "patch.diff")))
         if r.returncode != 0:
